@@ -76,6 +76,10 @@ func genC09(c *Ctx) {
 		}
 		tn := 0
 		mode := c.R.Intn(3) // 0 random, 1 one-directional bursts, 2 crossing-heavy
+		faulty := i%5 == 4  // the random source fails now and then (a rotation that cannot draw its new key)
+		if faulty {
+			c.Count("history:with-randomness-faults")
+		}
 		for k := 0; k < steps; k++ {
 			a := 1 + c.R.Intn(2)
 			if mode == 1 && c.R.Chance(4, 5) {
@@ -96,7 +100,11 @@ func genC09(c *Ctx) {
 				win := refWindowRecvMACs(s.ps[b].c)
 				w := parseWire(s.ps[a].outs[idx])
 				before := len(s.ps[b].outs)
+				if faulty && c.R.Chance(1, 4) {
+					s.ps[b].rnd.fail = 1
+				}
 				plain, _ := s.Deliver(a, idx, b, MNone)
+				s.ps[b].rnd.fail = 0
 				if w.kind == 4 && (plain != nil || eventsHave(s.ps[b].events, 10)) {
 					pair := [2]uint32{w.data.RecipientKeyID, w.data.SenderKeyID}
 					if k, ok := win[pair]; ok {
@@ -117,7 +125,11 @@ func genC09(c *Ctx) {
 			}
 		}
 		s.Pump(1, 2, 100)
-		c.AddScenario(s, pols)
+		if faulty {
+			c.Rep.Evaluations += len(s.ops) // (the abstract machine has no failing random source: oracle only)
+		} else {
+			c.AddScenario(s, pols)
+		}
 		if i == 0 {
 			c.Sample(s.trace[:min2(10, len(s.trace))])
 		}
